@@ -17,7 +17,7 @@ CaseRec ==
   [ entry |-> ent, kind |-> Entry(ent).kind, phase |-> phase, pre |-> hist,
     tpl |-> last'.tpl, field |-> last'.field, idx |-> last'.idx, mut |-> last'.mut,
     allowed |-> [ res  |-> {"value", "error"},
-                  post |-> ({phase, NextPhase(ent, phase)} \cup (IF Entry(ent).kind = "endpoint" THEN Terminal ELSE {})) ] ]
+                  post |-> (AtOrAfter(ent, phase) \cup (IF Entry(ent).kind = "endpoint" THEN Terminal ELSE {})) ] ]
 
 \* one line per input class and pre-state: the successor that keeps the phase is the representative
 EmitCase == IF last'.kind = "feed" /\ (phase' = phase \/ phase' = "crashed")
